@@ -228,6 +228,17 @@ func apply(b *built, alts []alteration) []byte {
 					frames[i] = b.spliced[i]
 				}
 			}
+		case "insert-empty-frame":
+			// a forged frame that claims zero bytes of content: two zero length bytes and any 16 tag bytes
+			i := 0
+			if n > 0 {
+				i = a.A % (n + 1)
+			}
+			forged := append([]byte{0, 0}, filler(16, uint32(a.B))...)
+			if a.B%3 == 0 {
+				forged = make([]byte, 18)
+			}
+			frames = append(frames[:i:i], append([][]byte{forged}, frames[i:]...)...)
 		case "flip", "truncate", "insert-garbage":
 			if !byteLevel {
 				stream = cat(frames)
@@ -352,7 +363,7 @@ var plainLen = rapid.OneOf(
 	rapid.IntRange(0, 3500),
 )
 
-var altKinds = []string{"flip", "flip", "flip", "truncate", "delete", "dup", "dup-later", "swap", "replay-old", "reflect", "splice", "insert-garbage"}
+var altKinds = []string{"flip", "flip", "flip", "truncate", "delete", "dup", "dup-later", "swap", "replay-old", "reflect", "splice", "insert-garbage", "insert-empty-frame"}
 
 func TestC05Prop(t *testing.T) {
 	rapid.Check(t, func(t *rapid.T) {
@@ -525,6 +536,30 @@ func TestC05FramePerms(t *testing.T) {
 			}
 			run(nf, order, "deletion")
 		}
+		// a forged zero-length frame at every frame boundary
+		for j := 0; j <= nf; j++ {
+			idx++
+			if idx%n == k {
+				sizes := make([]int, nf)
+				for i := range sizes {
+					sizes[i] = 5 + i
+				}
+				sc := fixedScenario(sizes, 2, idx%2 == 0, "ref")
+				b, err := build(sc)
+				if err != nil {
+					t.Fatal(err)
+				}
+				altered := apply(b, []alteration{{"insert-empty-frame", j, j}})
+				class, jerr := judge(b, altered)
+				stats.Case(stats.Hash("empty-frame", nf, j), true, []string{"exhaustive-forged-empty-frame", "outcome:" + class}, func() interface{} {
+					return map[string]interface{}{"frames": nf, "forged_empty_frame_before_frame": j, "outcome": class}
+				})
+				if jerr != nil {
+					stats.Fail("TestC05FramePerms", jerr.Error(), map[string]interface{}{"frames": nf, "forged_empty_frame_at": j})
+					t.Errorf("frames=%d forged empty frame at %d: %v", nf, j, jerr)
+				}
+			}
+		}
 		// single duplication: frame i again at position j
 		for i := 0; i < nf; i++ {
 			for j := 0; j <= nf; j++ {
@@ -684,4 +719,59 @@ func TestC05Conn(t *testing.T) {
 			t.Fatalf("%v\nscenario: preroll=%d sender=%s plainLens=%v alts=%v cuts=%v", jerr, sc.Preroll, sc.Sender, lens, sc.Alts, cuts)
 		}
 	})
+}
+
+// TestC05HighCounters: the whole 64-bit frame counter takes part in the nonce. A frame sealed at
+// counter c must be rejected by a receiver whose counter is c + 2^k for every byte position k, and a
+// frame sealed at c + 2^k must be accepted there. The counters are set through the verif hook.
+func TestC05HighCounters(t *testing.T) {
+	var secret [32]byte
+	for i := range secret {
+		secret[i] = byte(i*9 + 2)
+	}
+	_, c2a := refctl.SessionKeys(secret[:])
+	for _, base := range []uint64{0, 5, 1<<32 - 1} {
+		for k := uint(8); k < 64; k += 8 {
+			hi := base + 1<<k
+			for _, mode := range []string{"replay-from-low", "genuine-at-high", "low-counter-frame-from-high"} {
+				recv, _ := hccrypto.NewSecureSessionFromSharedKey(secret)
+				var sealAt, recvAt uint64
+				switch mode {
+				case "replay-from-low":
+					sealAt, recvAt = base, hi
+				case "genuine-at-high":
+					sealAt, recvAt = hi, hi
+				case "low-counter-frame-from-high":
+					sealAt, recvAt = hi, base
+				}
+				if !hccrypto.VerifSetCounters(recv, 0, recvAt) {
+					fmt.Println("VERIF-INCONCLUSIVE: counter hook does not know the session type")
+					t.Fatal("hook")
+				}
+				sealer := &refctl.Sealer{Key: c2a, Count: sealAt}
+				plain := filler(40, uint32(k))
+				frame := sealer.SealFrame(plain)
+				r, err := recv.Decrypt(bytes.NewReader(frame))
+				var got []byte
+				if err == nil {
+					got, _ = ioutil.ReadAll(r)
+				}
+				stats.Case(stats.Hash("high", base, k, mode), true, []string{"high-counter:" + mode}, func() interface{} {
+					return map[string]interface{}{"frame_sealed_at_counter": sealAt, "receiver_counter": recvAt, "mode": mode}
+				})
+				var verr error
+				if mode == "genuine-at-high" {
+					if err != nil || !bytes.Equal(got, plain) {
+						verr = fmt.Errorf("frame sealed at counter %d rejected by a receiver at counter %d: %v", sealAt, recvAt, err)
+					}
+				} else if err == nil {
+					verr = fmt.Errorf("frame sealed at counter %d accepted by a receiver at counter %d (released %d bytes)", sealAt, recvAt, len(got))
+				}
+				if verr != nil {
+					stats.Fail("TestC05HighCounters", verr.Error(), map[string]interface{}{"sealed_at": sealAt, "receiver_at": recvAt})
+					t.Errorf("%v", verr)
+				}
+			}
+		}
+	}
 }
